@@ -53,6 +53,7 @@ type verifC27Case struct {
 			Desc [][]int `json:"desc"`
 			Asc  [][]int `json:"asc"`
 		} `json:"top"`
+		Wt [][2]int64 `json:"wt"` // per series: [has points, ranking key within this group]
 	} `json:"agg"`
 	OT []struct {
 		Op string          `json:"op"`
@@ -362,6 +363,20 @@ func (r *verifC27Run) raw1s() {
 			}
 		}
 	}
+	// sort / sort_desc: every series with a point, ordered by the ranking key of the group of all series
+	if len(c.Agg) != 0 {
+		for gx := range c.Members {
+			if len(c.Members[gx]) != c.NS {
+				continue
+			}
+			for _, fn := range []string{"sort", "sort_desc"} {
+				expr := fn + "(m)"
+				got, err := r.eval(st, expr, t0, end, 1)
+				r.checkSort(fn, expr, got, err, c.Agg[gx].Wt)
+				r.res.Seen("agg:" + fn)
+			}
+		}
+	}
 	// over-time functions
 	for _, ot := range c.OT {
 		for w := 1; w <= c.WMax; w++ {
@@ -466,6 +481,44 @@ func (r *verifC27Run) checkTop(fn, expr string, got []verifC27Series, err error,
 		}
 		r.res.Steps++
 	}
+}
+
+func (r *verifC27Run) checkSort(fn, expr string, got []verifC27Series, err error, wt [][2]int64) {
+	c := r.c
+	sig := "agg:" + fn
+	if err != nil {
+		r.bad(sig, expr, 1, "evaluation", err.Error(), "engine error")
+		return
+	}
+	idOf := map[[2]int64]int{}
+	for s := range c.Tags {
+		idOf[c.Tags[s]] = s + 1
+	}
+	var order []int
+	seen := map[int]bool{}
+	for _, g := range got {
+		id, ok := idOf[g.key]
+		if !ok || seen[id] || wt[id-1][0] == 0 {
+			r.bad(sig, expr, 1, "each series with a point once", fmt.Sprint(g.key), "unexpected or duplicate result series")
+			return
+		}
+		seen[id] = true
+		order = append(order, id)
+	}
+	for s := range wt {
+		if wt[s][0] == 1 && !seen[s+1] {
+			r.bad(sig, expr, 1, "each series with a point once", fmt.Sprintf("series %d absent", s+1), "result series missing")
+			return
+		}
+	}
+	for i := 1; i < len(order); i++ {
+		a, b := wt[order[i-1]-1][1], wt[order[i]-1][1]
+		if (fn == "sort" && a > b) || (fn == "sort_desc" && a < b) {
+			r.bad(sig, expr, 1, map[string]any{"ranking_keys": wt}, order, "result is not ordered by the ranking key")
+			return
+		}
+	}
+	r.res.Steps++
 }
 
 func (r *verifC27Run) coarse() {
